@@ -9,7 +9,8 @@ Rules (each evaluated on K1 = D-Bus only and K2 = +gvariant `Maybe`, K2 keys car
            (in particular `signature` is carried over, not recomputed or replaced)
   T-SIG    `Value::value_signature`: a variant whose payload stores a signature (payload ADT has a field
            `signature`) returns the result of a payload method that returns exactly `&self.signature`;
-           every other variant returns a compile-time constant
+           every other variant returns the constant `<P as Type>::SIGNATURE` of its own payload type P
+           (`&str`/`String`/`Str` are one class; `Value(_)` returns `&Signature::Variant`)
   T-INV    `From<T> for Value` (into_value.rs, signature.rs) and `TryFrom<Value> for T` (from_value.rs) are
            mutually inverse on variants: for every T with both directions the variant built equals the only
            variant accepted, all impls of one T (by value / by ref / cloning) agree, the fall-through of every
@@ -22,11 +23,6 @@ Rules (each evaluated on K1 = D-Bus only and K2 = +gvariant `Maybe`, K2 keys car
            finer than the equality)
   F-CMP    `Ord::cmp` for Value does not return a literal `Ordering::Equal` on the fall-through of a switch
            over the operands' variants (R-FALL): otherwise `cmp == Equal` while `==` is false
-
-Dropped clause (cannot be decided from the facts): the basic-variant rows of `value_signature`
-(`Value::U16(_) => u16::SIGNATURE`): the extractor records the associated const as
-`zvariant::r#type::Type::SIGNATURE` without its `Self` type and does not dump promoteds, so
-`u16::SIGNATURE` and `i16::SIGNATURE` are the same fact. T-SIG only decides "constant vs stored signature".
 """
 import re
 from .. import mir
@@ -37,7 +33,7 @@ META = {
               "clone/own functions, carry-over of container signatures, variant tables of From/TryFrom are inverse, "
               "Hash feeds only payload-derived data per variant with the +0/-0 normalisation present, no derived-Hash/manual-Eq "
               "mix on payload types, and Value::cmp has no constant-Equal fall-through. Not decided: the laws over values "
-              "(NaN totality/transitivity, equality of nested containers), signature constants of basic variants."),
+              "(NaN totality/transitivity, equality of nested containers); that `<P as Type>::SIGNATURE` is the signature P is encoded with (C01/C09)."),
 }
 
 VALUE = "zvariant::value::Value"
@@ -246,12 +242,37 @@ def returns_exactly_field(body, field):
     return True
 
 
+# Self types whose `Type::SIGNATURE` is the string signature (zvariant/src/type/libstd.rs, str.rs: all `&Signature::Str`;
+# `&T` forwards to `T`), confirmed by reading.
+STRINGS = {"str", "zvariant::str::Str", "alloc::string::String"}
+SIG_CONST = re.compile(r"^<(.+) as zvariant::r#type::Type>::SIGNATURE$")
+
+
+def const_sig_matches(k, payload_ty):
+    """the constant returned for a variant is `<P as Type>::SIGNATURE` for the variant's payload type P"""
+    want = norm_type(payload_ty)
+    boxed_value = VALUE in payload_ty
+    if "cargs" in k:
+        m = SIG_CONST.match(k["cargs"])
+        if not m:
+            return False, "constant %s is not a Type::SIGNATURE" % k["cargs"]
+        got = norm_type(m.group(1))
+        ok = got == want or (got in STRINGS and want in STRINGS) or (boxed_value and got in (VALUE, "alloc::boxed::Box"))
+        return ok, "returns <%s>::SIGNATURE for a payload of type %s" % (m.group(1), payload_ty)
+    pv = k.get("pv")
+    if isinstance(pv, dict) and "agg" in pv:
+        ok = boxed_value and pv["agg"] == "zvariant_utils::signature::Signature::Variant" and not pv.get("items")
+        return ok, "returns &%s for a payload of type %s" % (pv["agg"], payload_ty)
+    return False, "constant of unknown value (%s)" % sorted(k)
+
+
 def rule_t_sig(ctx, f, tag):
     body = ctx.one(f.find(name="value_signature", adt=VALUE, trait=""), tag + "Value::value_signature")
     sb, place, arms, other = ctx.one(value_switches(body, f), tag + "switch in value_signature")
     tab = arm_table(body, f, sb, arms, other)
     regs = exclusive_regions(body, tab)
     n_stored = 0
+    n_const = 0
     for v in f.adts[VALUE]["variants"]:
         name = v["name"]
         key = "%svalue_signature:%s" % (tag, name)
@@ -292,11 +313,14 @@ def rule_t_sig(ctx, f, tag):
                         if k is not None and ("cdef" in k or "promoted" in k):
                             consts.append(k)
             ok = not cs and len(consts) == 1
-            ctx.ob("T-SIG", key, ok,
-                   "constant signature (%s)" % (consts[0].get("cdef") or "promoted") if ok else
-                   "arm of %s is not a single constant (calls %s, consts %d)" % (name, [c.callee for c in cs], len(consts)),
-                   body.where)
+            detail = "arm of %s is not a single constant (calls %s, consts %d)" % (name, [c.callee for c in cs], len(consts))
+            lines = [ln for b, i, pl, rv, ln in mir.assignments(body) if b in reg]
+            if ok:
+                ok, detail = const_sig_matches(consts[0], pty)
+            n_const += 1
+            ctx.ob("T-SIG", key, ok, detail, "%s:%d" % (body.file, lines[0]) if lines else body.where)
     ctx.floor("T-SIG", tag + "variants with a stored signature", n_stored, 3)
+    ctx.floor("T-SIG", tag + "variants with a constant signature", n_const, 12)
 
 
 # ------------------------------------------------------------------------------------------ T-INV
@@ -553,12 +577,10 @@ def run(ctx):
     ctx.explanation = (
         "Switch tables of zvariant's Value extracted from MIR (K1: D-Bus; K2: +gvariant Maybe, option-as-array): "
         "try_clone/try_to_owned/try_into_owned map variant i to variant i from i's payload; containers carry every field "
-        "(incl. signature) over; value_signature returns the stored signature for container variants and a constant "
+        "(incl. signature) over; value_signature returns the stored signature for container variants and <payload type>::SIGNATURE "
         "otherwise; From<T> for Value and TryFrom<Value> for T tables are mutually inverse and every TryFrom falls through "
         "to IncorrectType; Hash feeds payload-derived data in every arm, zero-normalises F64, PartialEq is the structural "
         "derive; no payload type pairs a derived Hash with a hand-written PartialEq; Value::cmp has no constant-Equal fall-through.")
-    ctx.not_decided = ("the algebraic laws over values (NaN totality/transitivity, nested container equality); which constant "
-                       "a basic variant returns from value_signature (extractor does not record the Self type of associated consts); "
-                       "conversions of tuple/derive-generated types.")
+    ctx.not_decided = ("the algebraic laws over values (NaN totality/transitivity, nested container equality); conversions of tuple/derive-generated types.")
     check_config(ctx, ctx.facts("K1"), "")
     check_config(ctx, ctx.facts("K2"), "K2:")
